@@ -307,10 +307,10 @@ class DocumentationAggregator(CMakeListener):
 
             # If the value includes the quote marks,
             # need to remove them to get just the raw string
-            if value[0] == '"':
-                value = value[1:]
-            if value[-1] == '"':
-                value = value[:-1]
+            # Only a quoted argument carries surrounding quote marks, an unquoted
+            # value may end in an escaped quote that belongs to the value
+            if len(value) >= 2 and value[0] == '"' and value[-1] == '"':
+                value = value[1:-1]
             self.documented.append(VariableDocumentation(
                 varname, docstring, VarType.STRING, value))
         else:  # Unset
